@@ -85,6 +85,8 @@ def generate(prng, tier, index):
           "attrs": prng.random() < 0.3}
     if variant == "faults":
         sc["abort_at"] = prng.randrange(0, 8)
+        if prng.random() < 0.5:
+            sc["abort_line"] = prng.choice((prng.randrange(0, 30), prng.randrange(0, 600)))
     # histories: between two covers of the SAME graph object, optionally move edges (vertex and edge counts unchanged)
     if prng.random() < 0.4 and es and len(nodes) >= 3:
         sc["limits"] = sc["limits"] + [prng.choice((0, 0, 3, 4))]
@@ -252,7 +254,10 @@ def execute(sc, ctx):
                     cur = [e for e in cur if frozenset(e) != frozenset(out_e)] + [list(in_e)]
                     ctx.probe("edge_moved_between_covers")
         if k == 0 and sc["variant"] == "faults":
-            st, _ = ctx.call(src, MPCC, G, limit, abort_at=sc.get("abort_at", 0), budget=100000, label="MPCC")
+            if sc.get("abort_line") is not None:
+                st, _ = ctx.call(src, MPCC, G, limit, abort_at_line=sc["abort_line"], budget=100000, label="MPCC[abort at line]")
+            else:
+                st, _ = ctx.call(src, MPCC, G, limit, abort_at=sc.get("abort_at", 0), budget=100000, label="MPCC")
             if st == "abort":
                 tag = " (cover after an aborted one on the same graph)"
                 ctx.probe("cover_after_abort")
